@@ -3,10 +3,10 @@ use zydeco_dynamics::{BuiltinRootLinker, Runtime, ProgKont, Eval, Step};
 use zydeco_dynamics::syntax::Computation;
 fn main() {
     let dir = std::env::args().nth(1).unwrap();
-    let n: usize = std::env::args().nth(2).unwrap().parse().unwrap();
+    let s0: usize = std::env::args().nth(2).unwrap().parse().unwrap(); let n: usize = std::env::args().nth(3).unwrap().parse().unwrap(); // usage: probe DIR START END
     std::panic::set_hook(Box::new(|_| {}));
     let compiler = zydeco_cli::CommandCompiler::default();
-    for i in 0..n {
+    for i in s0..n {
         let p = format!("{dir}/p{i}.zy");
         let r = std::panic::catch_unwind(std::panic::AssertUnwindSafe(|| {
             let a = match compiler.analyze(Path::new(&p)) { Ok(a) => a, Err(e) => {
